@@ -348,7 +348,7 @@ func (p *Prog) calleeKeys(pkg *packages.Package, c *ast.CallExpr) []string {
 				if inner, ok := ast.Unparen(sel.X).(*ast.SelectorExpr); ok {
 					if fv, ok := pkg.TypesInfo.Uses[inner.Sel].(*types.Var); ok && fv.IsField() {
 						if ts := p.fieldTypes(fv); len(ts) > 0 {
-							for _, t := range ts {
+							for _, t := range p.throughDecorators(ts, sig.Recv().Type(), 0) {
 								obj, _, _ := types.LookupFieldOrMethod(t, true, nil, f.Name())
 								if m, ok := obj.(*types.Func); ok {
 									keys = append(keys, fkey(m))
@@ -365,6 +365,44 @@ func (p *Prog) calleeKeys(pkg *packages.Package, c *ast.CallExpr) []string {
 		}
 	}
 	return keys
+}
+
+// throughDecorators adds, for every concrete type that is a decorator of the interface
+// (a module struct holding a field of that very interface type), the types wired into
+// that field: a call through the decorator reaches the decorated implementation too.
+func (p *Prog) throughDecorators(ts []types.Type, iface types.Type, depth int) []types.Type {
+	out := append([]types.Type{}, ts...)
+	if depth > 2 {
+		return out
+	}
+	for _, t := range ts {
+		bt := t
+		if pt, ok := bt.(*types.Pointer); ok {
+			bt = pt.Elem()
+		}
+		st, ok := bt.Underlying().(*types.Struct)
+		if !ok {
+			continue
+		}
+		for i := 0; i < st.NumFields(); i++ {
+			fv := st.Field(i)
+			if !types.Identical(fv.Type(), iface) {
+				continue
+			}
+			for _, in := range p.throughDecorators(p.fieldTypes(fv), iface, depth+1) {
+				dup := false
+				for _, x := range out {
+					if types.Identical(x, in) {
+						dup = true
+					}
+				}
+				if !dup {
+					out = append(out, in)
+				}
+			}
+		}
+	}
+	return out
 }
 
 func (p *Prog) callIs(pkg *packages.Package, c *ast.CallExpr, keys ...string) bool {
